@@ -99,7 +99,9 @@ def gen(ctx, name, bounds, fix, seen):
                           "model": "fix" if fix else "coded", "stuck": seqs[q],
                           # redials the model does not perform: fail, or (every other Close scenario) succeed -- a transport that
                           # keeps redialling after Close then stays alive and its callers hang
-                          "after": "ok" if (k // 2) % 2 == 0 and any(o["a"] == "close" for o in ops) else "fail"},
+                          "after": "ok" if (k // 2) % 2 == 0 and any(o["a"] == "close" for o in ops) else "fail",
+                          # every fourth Close scenario: the underlying connection's own Close returns an error (it is closed anyway)
+                          "closeErr": (k // 2) % 4 == 0 and any(o["a"] == "close" for o in ops)},
                     "steps": steps})
     log("[C18] family %s: %d printed, %d new maximal environment scripts" % (name, len(r.printed), len(scs)))
     return scs
